@@ -117,9 +117,18 @@ def build(scn, pool, log):
 
     k = scn["kind"]
     if k == "linear":
-        return LinearController(pool, low_utilisation=scn["low"] / 4, high_allocation=scn["high"] / 4, rate=scn["rate"] / 4)
+        # (a parameter that has its documented default value is left to the default)
+        kw = {"low_utilisation": scn["low"] / 4, "high_allocation": scn["high"] / 4, "rate": scn["rate"] / 4}
+        for name, default in (("low_utilisation", 0.5), ("high_allocation", 0.5), ("rate", 1)):
+            if kw[name] == default:
+                del kw[name]
+        return LinearController(pool, **kw)
     if k == "relative":
-        return RelativeSupplyController(pool, low_utilisation=scn["low"] / 4, high_allocation=scn["high"] / 4, low_scale=scn["lscale"] / 4, high_scale=scn["hscale"] / 4)
+        kw = {"low_utilisation": scn["low"] / 4, "high_allocation": scn["high"] / 4, "low_scale": scn["lscale"] / 4, "high_scale": scn["hscale"] / 4}
+        for name, default in (("low_utilisation", 0.5), ("high_allocation", 0.5)):
+            if kw[name] == default:
+                del kw[name]
+        return RelativeSupplyController(pool, **kw)
     if k == "stepwise":
         def mk(rid):
             def rule(p, interval):
